@@ -249,6 +249,11 @@ package document
 //@ ensures err == nil && old(ctHas(d.contentTypes.Overrides, "/" + ("word/" + hfFile("header", headerType)))) ==> len(d.contentTypes.Overrides) == old(len(d.contentTypes.Overrides))
 //@ ensures err == nil && !old(ctHas(d.contentTypes.Overrides, "/" + ("word/" + hfFile("header", headerType)))) ==> len(d.contentTypes.Overrides) == old(len(d.contentTypes.Overrides)) + 1 && d.contentTypes.Overrides[old(len(d.contentTypes.Overrides))].PartName == "/" + ("word/" + hfFile("header", headerType)) && d.contentTypes.Overrides[old(len(d.contentTypes.Overrides))].ContentType == "application/vnd.openxmlformats-officedocument.wordprocessingml.header+xml"
 //@ ensures err == nil ==> forall j int :: 0 <= j && j < old(len(d.contentTypes.Overrides)) ==> d.contentTypes.Overrides[j] == old(d.contentTypes.Overrides[j])
+// what is serialised: one fresh Header with a single paragraph; the part ends with the bytes the serialiser returned for it
+//@ ensures err == nil ==> marshalCount() == old(marshalCount()) + 1 && typeIs(marshalAt(old(marshalCount())), "*Header") && fresh(marshalAt(old(marshalCount())).(*Header)) && len(marshalAt(old(marshalCount())).(*Header).Paragraphs) == 1 && fresh(marshalAt(old(marshalCount())).(*Header).Paragraphs[0])
+//@ ensures err == nil ==> len(d.parts["word/" + hfFile("header", headerType)]) >= len(marshalOut(old(marshalCount()))) && (forall i int :: 0 <= i && i < len(marshalOut(old(marshalCount()))) ==> d.parts["word/" + hfFile("header", headerType)][len(d.parts["word/" + hfFile("header", headerType)]) - len(marshalOut(old(marshalCount()))) + i] == marshalOut(old(marshalCount()))[i])
+//@ ensures err != nil ==> marshalCount() == old(marshalCount())
+//@ ensures err == nil ==> marshalAt(old(marshalCount())).(*Header).Paragraphs[0].Properties == nil && (text == "" ==> len(marshalAt(old(marshalCount())).(*Header).Paragraphs[0].Runs) == 0) && (text != "" ==> len(marshalAt(old(marshalCount())).(*Header).Paragraphs[0].Runs) == 1 && marshalAt(old(marshalCount())).(*Header).Paragraphs[0].Runs[0].Text.Content == text && marshalAt(old(marshalCount())).(*Header).Paragraphs[0].Runs[0].Text.Space == "preserve" && marshalAt(old(marshalCount())).(*Header).Paragraphs[0].Runs[0].Properties == nil && marshalAt(old(marshalCount())).(*Header).Paragraphs[0].Runs[0].FieldChar == nil && marshalAt(old(marshalCount())).(*Header).Paragraphs[0].Runs[0].InstrText == nil)
 // section settings found or created: never a second element, every other body element stays in place
 //@ ensures elemsOK(d.Body.Elements)
 //@ ensures err == nil && !old(noSect(d.Body.Elements)) ==> len(d.Body.Elements) == old(len(d.Body.Elements))
@@ -295,6 +300,11 @@ package document
 //@ ensures err == nil && old(ctHas(d.contentTypes.Overrides, "/" + ("word/" + hfFile("footer", footerType)))) ==> len(d.contentTypes.Overrides) == old(len(d.contentTypes.Overrides))
 //@ ensures err == nil && !old(ctHas(d.contentTypes.Overrides, "/" + ("word/" + hfFile("footer", footerType)))) ==> len(d.contentTypes.Overrides) == old(len(d.contentTypes.Overrides)) + 1 && d.contentTypes.Overrides[old(len(d.contentTypes.Overrides))].PartName == "/" + ("word/" + hfFile("footer", footerType)) && d.contentTypes.Overrides[old(len(d.contentTypes.Overrides))].ContentType == "application/vnd.openxmlformats-officedocument.wordprocessingml.footer+xml"
 //@ ensures err == nil ==> forall j int :: 0 <= j && j < old(len(d.contentTypes.Overrides)) ==> d.contentTypes.Overrides[j] == old(d.contentTypes.Overrides[j])
+// what is serialised: one fresh Footer with a single paragraph; the part ends with the bytes the serialiser returned for it
+//@ ensures err == nil ==> marshalCount() == old(marshalCount()) + 1 && typeIs(marshalAt(old(marshalCount())), "*Footer") && fresh(marshalAt(old(marshalCount())).(*Footer)) && len(marshalAt(old(marshalCount())).(*Footer).Paragraphs) == 1 && fresh(marshalAt(old(marshalCount())).(*Footer).Paragraphs[0])
+//@ ensures err == nil ==> len(d.parts["word/" + hfFile("footer", footerType)]) >= len(marshalOut(old(marshalCount()))) && (forall i int :: 0 <= i && i < len(marshalOut(old(marshalCount()))) ==> d.parts["word/" + hfFile("footer", footerType)][len(d.parts["word/" + hfFile("footer", footerType)]) - len(marshalOut(old(marshalCount()))) + i] == marshalOut(old(marshalCount()))[i])
+//@ ensures err != nil ==> marshalCount() == old(marshalCount())
+//@ ensures err == nil ==> marshalAt(old(marshalCount())).(*Footer).Paragraphs[0].Properties == nil && (text == "" ==> len(marshalAt(old(marshalCount())).(*Footer).Paragraphs[0].Runs) == 0) && (text != "" ==> len(marshalAt(old(marshalCount())).(*Footer).Paragraphs[0].Runs) == 1 && marshalAt(old(marshalCount())).(*Footer).Paragraphs[0].Runs[0].Text.Content == text && marshalAt(old(marshalCount())).(*Footer).Paragraphs[0].Runs[0].Text.Space == "preserve" && marshalAt(old(marshalCount())).(*Footer).Paragraphs[0].Runs[0].Properties == nil && marshalAt(old(marshalCount())).(*Footer).Paragraphs[0].Runs[0].FieldChar == nil && marshalAt(old(marshalCount())).(*Footer).Paragraphs[0].Runs[0].InstrText == nil)
 // section settings found or created: never a second element, every other body element stays in place
 //@ ensures elemsOK(d.Body.Elements)
 //@ ensures err == nil && !old(noSect(d.Body.Elements)) ==> len(d.Body.Elements) == old(len(d.Body.Elements))
@@ -341,6 +351,27 @@ package document
 //@ ensures err == nil && old(ctHas(d.contentTypes.Overrides, "/" + ("word/" + hfFile("header", headerType)))) ==> len(d.contentTypes.Overrides) == old(len(d.contentTypes.Overrides))
 //@ ensures err == nil && !old(ctHas(d.contentTypes.Overrides, "/" + ("word/" + hfFile("header", headerType)))) ==> len(d.contentTypes.Overrides) == old(len(d.contentTypes.Overrides)) + 1 && d.contentTypes.Overrides[old(len(d.contentTypes.Overrides))].PartName == "/" + ("word/" + hfFile("header", headerType)) && d.contentTypes.Overrides[old(len(d.contentTypes.Overrides))].ContentType == "application/vnd.openxmlformats-officedocument.wordprocessingml.header+xml"
 //@ ensures err == nil ==> forall j int :: 0 <= j && j < old(len(d.contentTypes.Overrides)) ==> d.contentTypes.Overrides[j] == old(d.contentTypes.Overrides[j])
+// what is serialised: one fresh Header with a single paragraph; the part ends with the bytes the serialiser returned for it
+//@ ensures err == nil ==> marshalCount() == old(marshalCount()) + 1 && typeIs(marshalAt(old(marshalCount())), "*Header") && fresh(marshalAt(old(marshalCount())).(*Header)) && len(marshalAt(old(marshalCount())).(*Header).Paragraphs) == 1 && fresh(marshalAt(old(marshalCount())).(*Header).Paragraphs[0])
+//@ ensures err == nil ==> len(d.parts["word/" + hfFile("header", headerType)]) >= len(marshalOut(old(marshalCount()))) && (forall i int :: 0 <= i && i < len(marshalOut(old(marshalCount()))) ==> d.parts["word/" + hfFile("header", headerType)][len(d.parts["word/" + hfFile("header", headerType)]) - len(marshalOut(old(marshalCount()))) + i] == marshalOut(old(marshalCount()))[i])
+//@ ensures err != nil ==> marshalCount() == old(marshalCount())
+// runs: [text]? then, when a page number is requested, " 第 ", the PAGE field (begin, instruction, separate, placeholder, end), " 页"
+//@ ensures err == nil ==> marshalAt(old(marshalCount())).(*Header).Paragraphs[0].Properties == nil && len(marshalAt(old(marshalCount())).(*Header).Paragraphs[0].Runs) == ite(text != "", 1, 0) + ite(showPageNum, 7, 0)
+//@ ensures err == nil && text != "" ==> marshalAt(old(marshalCount())).(*Header).Paragraphs[0].Runs[0].Text.Content == text && marshalAt(old(marshalCount())).(*Header).Paragraphs[0].Runs[0].Text.Space == "preserve" && marshalAt(old(marshalCount())).(*Header).Paragraphs[0].Runs[0].FieldChar == nil && marshalAt(old(marshalCount())).(*Header).Paragraphs[0].Runs[0].InstrText == nil
+//@ ensures err == nil && showPageNum && text != "" ==> marshalAt(old(marshalCount())).(*Header).Paragraphs[0].Runs[1].Text.Content == " 第 " && marshalAt(old(marshalCount())).(*Header).Paragraphs[0].Runs[1].FieldChar == nil && marshalAt(old(marshalCount())).(*Header).Paragraphs[0].Runs[1].InstrText == nil
+//@ ensures err == nil && showPageNum && text != "" ==> marshalAt(old(marshalCount())).(*Header).Paragraphs[0].Runs[2].FieldChar != nil && marshalAt(old(marshalCount())).(*Header).Paragraphs[0].Runs[2].FieldChar.FieldCharType == "begin" && marshalAt(old(marshalCount())).(*Header).Paragraphs[0].Runs[2].InstrText == nil
+//@ ensures err == nil && showPageNum && text != "" ==> marshalAt(old(marshalCount())).(*Header).Paragraphs[0].Runs[3].InstrText != nil && marshalAt(old(marshalCount())).(*Header).Paragraphs[0].Runs[3].InstrText.Content == " PAGE  \\* MERGEFORMAT " && marshalAt(old(marshalCount())).(*Header).Paragraphs[0].Runs[3].FieldChar == nil
+//@ ensures err == nil && showPageNum && text != "" ==> marshalAt(old(marshalCount())).(*Header).Paragraphs[0].Runs[4].FieldChar != nil && marshalAt(old(marshalCount())).(*Header).Paragraphs[0].Runs[4].FieldChar.FieldCharType == "separate" && marshalAt(old(marshalCount())).(*Header).Paragraphs[0].Runs[4].InstrText == nil
+//@ ensures err == nil && showPageNum && text != "" ==> marshalAt(old(marshalCount())).(*Header).Paragraphs[0].Runs[5].Text.Content == "1" && marshalAt(old(marshalCount())).(*Header).Paragraphs[0].Runs[5].FieldChar == nil && marshalAt(old(marshalCount())).(*Header).Paragraphs[0].Runs[5].InstrText == nil
+//@ ensures err == nil && showPageNum && text != "" ==> marshalAt(old(marshalCount())).(*Header).Paragraphs[0].Runs[6].FieldChar != nil && marshalAt(old(marshalCount())).(*Header).Paragraphs[0].Runs[6].FieldChar.FieldCharType == "end" && marshalAt(old(marshalCount())).(*Header).Paragraphs[0].Runs[6].InstrText == nil
+//@ ensures err == nil && showPageNum && text != "" ==> marshalAt(old(marshalCount())).(*Header).Paragraphs[0].Runs[7].Text.Content == " 页" && marshalAt(old(marshalCount())).(*Header).Paragraphs[0].Runs[7].FieldChar == nil && marshalAt(old(marshalCount())).(*Header).Paragraphs[0].Runs[7].InstrText == nil
+//@ ensures err == nil && showPageNum && text == "" ==> marshalAt(old(marshalCount())).(*Header).Paragraphs[0].Runs[0].Text.Content == " 第 " && marshalAt(old(marshalCount())).(*Header).Paragraphs[0].Runs[0].FieldChar == nil && marshalAt(old(marshalCount())).(*Header).Paragraphs[0].Runs[0].InstrText == nil
+//@ ensures err == nil && showPageNum && text == "" ==> marshalAt(old(marshalCount())).(*Header).Paragraphs[0].Runs[1].FieldChar != nil && marshalAt(old(marshalCount())).(*Header).Paragraphs[0].Runs[1].FieldChar.FieldCharType == "begin" && marshalAt(old(marshalCount())).(*Header).Paragraphs[0].Runs[1].InstrText == nil
+//@ ensures err == nil && showPageNum && text == "" ==> marshalAt(old(marshalCount())).(*Header).Paragraphs[0].Runs[2].InstrText != nil && marshalAt(old(marshalCount())).(*Header).Paragraphs[0].Runs[2].InstrText.Content == " PAGE  \\* MERGEFORMAT " && marshalAt(old(marshalCount())).(*Header).Paragraphs[0].Runs[2].FieldChar == nil
+//@ ensures err == nil && showPageNum && text == "" ==> marshalAt(old(marshalCount())).(*Header).Paragraphs[0].Runs[3].FieldChar != nil && marshalAt(old(marshalCount())).(*Header).Paragraphs[0].Runs[3].FieldChar.FieldCharType == "separate" && marshalAt(old(marshalCount())).(*Header).Paragraphs[0].Runs[3].InstrText == nil
+//@ ensures err == nil && showPageNum && text == "" ==> marshalAt(old(marshalCount())).(*Header).Paragraphs[0].Runs[4].Text.Content == "1" && marshalAt(old(marshalCount())).(*Header).Paragraphs[0].Runs[4].FieldChar == nil && marshalAt(old(marshalCount())).(*Header).Paragraphs[0].Runs[4].InstrText == nil
+//@ ensures err == nil && showPageNum && text == "" ==> marshalAt(old(marshalCount())).(*Header).Paragraphs[0].Runs[5].FieldChar != nil && marshalAt(old(marshalCount())).(*Header).Paragraphs[0].Runs[5].FieldChar.FieldCharType == "end" && marshalAt(old(marshalCount())).(*Header).Paragraphs[0].Runs[5].InstrText == nil
+//@ ensures err == nil && showPageNum && text == "" ==> marshalAt(old(marshalCount())).(*Header).Paragraphs[0].Runs[6].Text.Content == " 页" && marshalAt(old(marshalCount())).(*Header).Paragraphs[0].Runs[6].FieldChar == nil && marshalAt(old(marshalCount())).(*Header).Paragraphs[0].Runs[6].InstrText == nil
 // section settings found or created: never a second element, every other body element stays in place
 //@ ensures elemsOK(d.Body.Elements)
 //@ ensures err == nil && !old(noSect(d.Body.Elements)) ==> len(d.Body.Elements) == old(len(d.Body.Elements))
@@ -387,6 +418,27 @@ package document
 //@ ensures err == nil && old(ctHas(d.contentTypes.Overrides, "/" + ("word/" + hfFile("footer", footerType)))) ==> len(d.contentTypes.Overrides) == old(len(d.contentTypes.Overrides))
 //@ ensures err == nil && !old(ctHas(d.contentTypes.Overrides, "/" + ("word/" + hfFile("footer", footerType)))) ==> len(d.contentTypes.Overrides) == old(len(d.contentTypes.Overrides)) + 1 && d.contentTypes.Overrides[old(len(d.contentTypes.Overrides))].PartName == "/" + ("word/" + hfFile("footer", footerType)) && d.contentTypes.Overrides[old(len(d.contentTypes.Overrides))].ContentType == "application/vnd.openxmlformats-officedocument.wordprocessingml.footer+xml"
 //@ ensures err == nil ==> forall j int :: 0 <= j && j < old(len(d.contentTypes.Overrides)) ==> d.contentTypes.Overrides[j] == old(d.contentTypes.Overrides[j])
+// what is serialised: one fresh Footer with a single paragraph; the part ends with the bytes the serialiser returned for it
+//@ ensures err == nil ==> marshalCount() == old(marshalCount()) + 1 && typeIs(marshalAt(old(marshalCount())), "*Footer") && fresh(marshalAt(old(marshalCount())).(*Footer)) && len(marshalAt(old(marshalCount())).(*Footer).Paragraphs) == 1 && fresh(marshalAt(old(marshalCount())).(*Footer).Paragraphs[0])
+//@ ensures err == nil ==> len(d.parts["word/" + hfFile("footer", footerType)]) >= len(marshalOut(old(marshalCount()))) && (forall i int :: 0 <= i && i < len(marshalOut(old(marshalCount()))) ==> d.parts["word/" + hfFile("footer", footerType)][len(d.parts["word/" + hfFile("footer", footerType)]) - len(marshalOut(old(marshalCount()))) + i] == marshalOut(old(marshalCount()))[i])
+//@ ensures err != nil ==> marshalCount() == old(marshalCount())
+// runs: [text]? then, when a page number is requested, " 第 ", the PAGE field (begin, instruction, separate, placeholder, end), " 页"
+//@ ensures err == nil ==> marshalAt(old(marshalCount())).(*Footer).Paragraphs[0].Properties == nil && len(marshalAt(old(marshalCount())).(*Footer).Paragraphs[0].Runs) == ite(text != "", 1, 0) + ite(showPageNum, 7, 0)
+//@ ensures err == nil && text != "" ==> marshalAt(old(marshalCount())).(*Footer).Paragraphs[0].Runs[0].Text.Content == text && marshalAt(old(marshalCount())).(*Footer).Paragraphs[0].Runs[0].Text.Space == "preserve" && marshalAt(old(marshalCount())).(*Footer).Paragraphs[0].Runs[0].FieldChar == nil && marshalAt(old(marshalCount())).(*Footer).Paragraphs[0].Runs[0].InstrText == nil
+//@ ensures err == nil && showPageNum && text != "" ==> marshalAt(old(marshalCount())).(*Footer).Paragraphs[0].Runs[1].Text.Content == " 第 " && marshalAt(old(marshalCount())).(*Footer).Paragraphs[0].Runs[1].FieldChar == nil && marshalAt(old(marshalCount())).(*Footer).Paragraphs[0].Runs[1].InstrText == nil
+//@ ensures err == nil && showPageNum && text != "" ==> marshalAt(old(marshalCount())).(*Footer).Paragraphs[0].Runs[2].FieldChar != nil && marshalAt(old(marshalCount())).(*Footer).Paragraphs[0].Runs[2].FieldChar.FieldCharType == "begin" && marshalAt(old(marshalCount())).(*Footer).Paragraphs[0].Runs[2].InstrText == nil
+//@ ensures err == nil && showPageNum && text != "" ==> marshalAt(old(marshalCount())).(*Footer).Paragraphs[0].Runs[3].InstrText != nil && marshalAt(old(marshalCount())).(*Footer).Paragraphs[0].Runs[3].InstrText.Content == " PAGE  \\* MERGEFORMAT " && marshalAt(old(marshalCount())).(*Footer).Paragraphs[0].Runs[3].FieldChar == nil
+//@ ensures err == nil && showPageNum && text != "" ==> marshalAt(old(marshalCount())).(*Footer).Paragraphs[0].Runs[4].FieldChar != nil && marshalAt(old(marshalCount())).(*Footer).Paragraphs[0].Runs[4].FieldChar.FieldCharType == "separate" && marshalAt(old(marshalCount())).(*Footer).Paragraphs[0].Runs[4].InstrText == nil
+//@ ensures err == nil && showPageNum && text != "" ==> marshalAt(old(marshalCount())).(*Footer).Paragraphs[0].Runs[5].Text.Content == "1" && marshalAt(old(marshalCount())).(*Footer).Paragraphs[0].Runs[5].FieldChar == nil && marshalAt(old(marshalCount())).(*Footer).Paragraphs[0].Runs[5].InstrText == nil
+//@ ensures err == nil && showPageNum && text != "" ==> marshalAt(old(marshalCount())).(*Footer).Paragraphs[0].Runs[6].FieldChar != nil && marshalAt(old(marshalCount())).(*Footer).Paragraphs[0].Runs[6].FieldChar.FieldCharType == "end" && marshalAt(old(marshalCount())).(*Footer).Paragraphs[0].Runs[6].InstrText == nil
+//@ ensures err == nil && showPageNum && text != "" ==> marshalAt(old(marshalCount())).(*Footer).Paragraphs[0].Runs[7].Text.Content == " 页" && marshalAt(old(marshalCount())).(*Footer).Paragraphs[0].Runs[7].FieldChar == nil && marshalAt(old(marshalCount())).(*Footer).Paragraphs[0].Runs[7].InstrText == nil
+//@ ensures err == nil && showPageNum && text == "" ==> marshalAt(old(marshalCount())).(*Footer).Paragraphs[0].Runs[0].Text.Content == " 第 " && marshalAt(old(marshalCount())).(*Footer).Paragraphs[0].Runs[0].FieldChar == nil && marshalAt(old(marshalCount())).(*Footer).Paragraphs[0].Runs[0].InstrText == nil
+//@ ensures err == nil && showPageNum && text == "" ==> marshalAt(old(marshalCount())).(*Footer).Paragraphs[0].Runs[1].FieldChar != nil && marshalAt(old(marshalCount())).(*Footer).Paragraphs[0].Runs[1].FieldChar.FieldCharType == "begin" && marshalAt(old(marshalCount())).(*Footer).Paragraphs[0].Runs[1].InstrText == nil
+//@ ensures err == nil && showPageNum && text == "" ==> marshalAt(old(marshalCount())).(*Footer).Paragraphs[0].Runs[2].InstrText != nil && marshalAt(old(marshalCount())).(*Footer).Paragraphs[0].Runs[2].InstrText.Content == " PAGE  \\* MERGEFORMAT " && marshalAt(old(marshalCount())).(*Footer).Paragraphs[0].Runs[2].FieldChar == nil
+//@ ensures err == nil && showPageNum && text == "" ==> marshalAt(old(marshalCount())).(*Footer).Paragraphs[0].Runs[3].FieldChar != nil && marshalAt(old(marshalCount())).(*Footer).Paragraphs[0].Runs[3].FieldChar.FieldCharType == "separate" && marshalAt(old(marshalCount())).(*Footer).Paragraphs[0].Runs[3].InstrText == nil
+//@ ensures err == nil && showPageNum && text == "" ==> marshalAt(old(marshalCount())).(*Footer).Paragraphs[0].Runs[4].Text.Content == "1" && marshalAt(old(marshalCount())).(*Footer).Paragraphs[0].Runs[4].FieldChar == nil && marshalAt(old(marshalCount())).(*Footer).Paragraphs[0].Runs[4].InstrText == nil
+//@ ensures err == nil && showPageNum && text == "" ==> marshalAt(old(marshalCount())).(*Footer).Paragraphs[0].Runs[5].FieldChar != nil && marshalAt(old(marshalCount())).(*Footer).Paragraphs[0].Runs[5].FieldChar.FieldCharType == "end" && marshalAt(old(marshalCount())).(*Footer).Paragraphs[0].Runs[5].InstrText == nil
+//@ ensures err == nil && showPageNum && text == "" ==> marshalAt(old(marshalCount())).(*Footer).Paragraphs[0].Runs[6].Text.Content == " 页" && marshalAt(old(marshalCount())).(*Footer).Paragraphs[0].Runs[6].FieldChar == nil && marshalAt(old(marshalCount())).(*Footer).Paragraphs[0].Runs[6].InstrText == nil
 // section settings found or created: never a second element, every other body element stays in place
 //@ ensures elemsOK(d.Body.Elements)
 //@ ensures err == nil && !old(noSect(d.Body.Elements)) ==> len(d.Body.Elements) == old(len(d.Body.Elements))
@@ -433,6 +485,16 @@ package document
 //@ ensures err == nil && old(ctHas(d.contentTypes.Overrides, "/" + ("word/" + hfFile("header", headerType)))) ==> len(d.contentTypes.Overrides) == old(len(d.contentTypes.Overrides))
 //@ ensures err == nil && !old(ctHas(d.contentTypes.Overrides, "/" + ("word/" + hfFile("header", headerType)))) ==> len(d.contentTypes.Overrides) == old(len(d.contentTypes.Overrides)) + 1 && d.contentTypes.Overrides[old(len(d.contentTypes.Overrides))].PartName == "/" + ("word/" + hfFile("header", headerType)) && d.contentTypes.Overrides[old(len(d.contentTypes.Overrides))].ContentType == "application/vnd.openxmlformats-officedocument.wordprocessingml.header+xml"
 //@ ensures err == nil ==> forall j int :: 0 <= j && j < old(len(d.contentTypes.Overrides)) ==> d.contentTypes.Overrides[j] == old(d.contentTypes.Overrides[j])
+// what is serialised: one fresh Header with a single paragraph; the part ends with the bytes the serialiser returned for it
+//@ ensures err == nil ==> marshalCount() == old(marshalCount()) + 1 && typeIs(marshalAt(old(marshalCount())), "*Header") && fresh(marshalAt(old(marshalCount())).(*Header)) && len(marshalAt(old(marshalCount())).(*Header).Paragraphs) == 1 && fresh(marshalAt(old(marshalCount())).(*Header).Paragraphs[0])
+//@ ensures err == nil ==> len(d.parts["word/" + hfFile("header", headerType)]) >= len(marshalOut(old(marshalCount()))) && (forall i int :: 0 <= i && i < len(marshalOut(old(marshalCount()))) ==> d.parts["word/" + hfFile("header", headerType)][len(d.parts["word/" + hfFile("header", headerType)]) - len(marshalOut(old(marshalCount()))) + i] == marshalOut(old(marshalCount()))[i])
+//@ ensures err != nil ==> marshalCount() == old(marshalCount())
+// the paragraph is the one createFormattedParagraph builds from the configuration (text, alignment, run formatting; see its contract)
+//@ ensures err == nil && config != nil ==> (config.Alignment == "" ==> marshalAt(old(marshalCount())).(*Header).Paragraphs[0].Properties == nil) && (config.Alignment != "" ==> marshalAt(old(marshalCount())).(*Header).Paragraphs[0].Properties != nil && marshalAt(old(marshalCount())).(*Header).Paragraphs[0].Properties.Justification != nil && marshalAt(old(marshalCount())).(*Header).Paragraphs[0].Properties.Justification.Val == string(config.Alignment))
+//@ ensures err == nil && config != nil ==> (config.Text == "" ==> len(marshalAt(old(marshalCount())).(*Header).Paragraphs[0].Runs) == 0) && (config.Text != "" ==> len(marshalAt(old(marshalCount())).(*Header).Paragraphs[0].Runs) == 1 && marshalAt(old(marshalCount())).(*Header).Paragraphs[0].Runs[0].Text.Content == config.Text && marshalAt(old(marshalCount())).(*Header).Paragraphs[0].Runs[0].Text.Space == "preserve" && (config.Format == nil ==> marshalAt(old(marshalCount())).(*Header).Paragraphs[0].Runs[0].Properties == nil))
+//@ ensures err == nil && config != nil && config.Text != "" && config.Format != nil ==> marshalAt(old(marshalCount())).(*Header).Paragraphs[0].Runs[0].Properties != nil && (marshalAt(old(marshalCount())).(*Header).Paragraphs[0].Runs[0].Properties.Bold != nil) == config.Format.Bold && (marshalAt(old(marshalCount())).(*Header).Paragraphs[0].Runs[0].Properties.Italic != nil) == config.Format.Italic && (marshalAt(old(marshalCount())).(*Header).Paragraphs[0].Runs[0].Properties.Underline != nil) == config.Format.Underline && (marshalAt(old(marshalCount())).(*Header).Paragraphs[0].Runs[0].Properties.Strike != nil) == config.Format.Strike
+//@ ensures err == nil && config != nil && config.Text != "" && config.Format != nil ==> (config.Format.FontSize > 0 ==> marshalAt(old(marshalCount())).(*Header).Paragraphs[0].Runs[0].Properties.FontSize != nil && marshalAt(old(marshalCount())).(*Header).Paragraphs[0].Runs[0].Properties.FontSize.Val == itoa(config.Format.FontSize * 2)) && (config.Format.FontColor != "" ==> marshalAt(old(marshalCount())).(*Header).Paragraphs[0].Runs[0].Properties.Color != nil && marshalAt(old(marshalCount())).(*Header).Paragraphs[0].Runs[0].Properties.Color.Val == strings.TrimPrefix(config.Format.FontColor, "#")) && (fmtFont(config.Format) != "" ==> marshalAt(old(marshalCount())).(*Header).Paragraphs[0].Runs[0].Properties.FontFamily != nil && marshalAt(old(marshalCount())).(*Header).Paragraphs[0].Runs[0].Properties.FontFamily.ASCII == fmtFont(config.Format)) && (config.Format.Highlight != "" ==> marshalAt(old(marshalCount())).(*Header).Paragraphs[0].Runs[0].Properties.Highlight != nil && marshalAt(old(marshalCount())).(*Header).Paragraphs[0].Runs[0].Properties.Highlight.Val == config.Format.Highlight)
+//@ ensures err == nil && config == nil ==> marshalAt(old(marshalCount())).(*Header).Paragraphs[0].Properties == nil && len(marshalAt(old(marshalCount())).(*Header).Paragraphs[0].Runs) == 0
 // section settings found or created: never a second element, every other body element stays in place
 //@ ensures elemsOK(d.Body.Elements)
 //@ ensures err == nil && !old(noSect(d.Body.Elements)) ==> len(d.Body.Elements) == old(len(d.Body.Elements))
@@ -479,6 +541,16 @@ package document
 //@ ensures err == nil && old(ctHas(d.contentTypes.Overrides, "/" + ("word/" + hfFile("footer", footerType)))) ==> len(d.contentTypes.Overrides) == old(len(d.contentTypes.Overrides))
 //@ ensures err == nil && !old(ctHas(d.contentTypes.Overrides, "/" + ("word/" + hfFile("footer", footerType)))) ==> len(d.contentTypes.Overrides) == old(len(d.contentTypes.Overrides)) + 1 && d.contentTypes.Overrides[old(len(d.contentTypes.Overrides))].PartName == "/" + ("word/" + hfFile("footer", footerType)) && d.contentTypes.Overrides[old(len(d.contentTypes.Overrides))].ContentType == "application/vnd.openxmlformats-officedocument.wordprocessingml.footer+xml"
 //@ ensures err == nil ==> forall j int :: 0 <= j && j < old(len(d.contentTypes.Overrides)) ==> d.contentTypes.Overrides[j] == old(d.contentTypes.Overrides[j])
+// what is serialised: one fresh Footer with a single paragraph; the part ends with the bytes the serialiser returned for it
+//@ ensures err == nil ==> marshalCount() == old(marshalCount()) + 1 && typeIs(marshalAt(old(marshalCount())), "*Footer") && fresh(marshalAt(old(marshalCount())).(*Footer)) && len(marshalAt(old(marshalCount())).(*Footer).Paragraphs) == 1 && fresh(marshalAt(old(marshalCount())).(*Footer).Paragraphs[0])
+//@ ensures err == nil ==> len(d.parts["word/" + hfFile("footer", footerType)]) >= len(marshalOut(old(marshalCount()))) && (forall i int :: 0 <= i && i < len(marshalOut(old(marshalCount()))) ==> d.parts["word/" + hfFile("footer", footerType)][len(d.parts["word/" + hfFile("footer", footerType)]) - len(marshalOut(old(marshalCount()))) + i] == marshalOut(old(marshalCount()))[i])
+//@ ensures err != nil ==> marshalCount() == old(marshalCount())
+// the paragraph is the one createFormattedParagraph builds from the configuration (text, alignment, run formatting; see its contract)
+//@ ensures err == nil && config != nil ==> (config.Alignment == "" ==> marshalAt(old(marshalCount())).(*Footer).Paragraphs[0].Properties == nil) && (config.Alignment != "" ==> marshalAt(old(marshalCount())).(*Footer).Paragraphs[0].Properties != nil && marshalAt(old(marshalCount())).(*Footer).Paragraphs[0].Properties.Justification != nil && marshalAt(old(marshalCount())).(*Footer).Paragraphs[0].Properties.Justification.Val == string(config.Alignment))
+//@ ensures err == nil && config != nil ==> (config.Text == "" ==> len(marshalAt(old(marshalCount())).(*Footer).Paragraphs[0].Runs) == 0) && (config.Text != "" ==> len(marshalAt(old(marshalCount())).(*Footer).Paragraphs[0].Runs) == 1 && marshalAt(old(marshalCount())).(*Footer).Paragraphs[0].Runs[0].Text.Content == config.Text && marshalAt(old(marshalCount())).(*Footer).Paragraphs[0].Runs[0].Text.Space == "preserve" && (config.Format == nil ==> marshalAt(old(marshalCount())).(*Footer).Paragraphs[0].Runs[0].Properties == nil))
+//@ ensures err == nil && config != nil && config.Text != "" && config.Format != nil ==> marshalAt(old(marshalCount())).(*Footer).Paragraphs[0].Runs[0].Properties != nil && (marshalAt(old(marshalCount())).(*Footer).Paragraphs[0].Runs[0].Properties.Bold != nil) == config.Format.Bold && (marshalAt(old(marshalCount())).(*Footer).Paragraphs[0].Runs[0].Properties.Italic != nil) == config.Format.Italic && (marshalAt(old(marshalCount())).(*Footer).Paragraphs[0].Runs[0].Properties.Underline != nil) == config.Format.Underline && (marshalAt(old(marshalCount())).(*Footer).Paragraphs[0].Runs[0].Properties.Strike != nil) == config.Format.Strike
+//@ ensures err == nil && config != nil && config.Text != "" && config.Format != nil ==> (config.Format.FontSize > 0 ==> marshalAt(old(marshalCount())).(*Footer).Paragraphs[0].Runs[0].Properties.FontSize != nil && marshalAt(old(marshalCount())).(*Footer).Paragraphs[0].Runs[0].Properties.FontSize.Val == itoa(config.Format.FontSize * 2)) && (config.Format.FontColor != "" ==> marshalAt(old(marshalCount())).(*Footer).Paragraphs[0].Runs[0].Properties.Color != nil && marshalAt(old(marshalCount())).(*Footer).Paragraphs[0].Runs[0].Properties.Color.Val == strings.TrimPrefix(config.Format.FontColor, "#")) && (fmtFont(config.Format) != "" ==> marshalAt(old(marshalCount())).(*Footer).Paragraphs[0].Runs[0].Properties.FontFamily != nil && marshalAt(old(marshalCount())).(*Footer).Paragraphs[0].Runs[0].Properties.FontFamily.ASCII == fmtFont(config.Format)) && (config.Format.Highlight != "" ==> marshalAt(old(marshalCount())).(*Footer).Paragraphs[0].Runs[0].Properties.Highlight != nil && marshalAt(old(marshalCount())).(*Footer).Paragraphs[0].Runs[0].Properties.Highlight.Val == config.Format.Highlight)
+//@ ensures err == nil && config == nil ==> marshalAt(old(marshalCount())).(*Footer).Paragraphs[0].Properties == nil && len(marshalAt(old(marshalCount())).(*Footer).Paragraphs[0].Runs) == 0
 // section settings found or created: never a second element, every other body element stays in place
 //@ ensures elemsOK(d.Body.Elements)
 //@ ensures err == nil && !old(noSect(d.Body.Elements)) ==> len(d.Body.Elements) == old(len(d.Body.Elements))
